@@ -522,10 +522,15 @@ pub fn check(tier: Tier) -> i32 {
     // quick: depth 4 over the whole alphabet; thorough: depth 5 with five adaptor programs, then depth 4 with all
     let all_progs: Vec<u8> = (0..PROGS.len() as u8).collect();
     let five: Vec<u8> = [Prog::NthNext(1), Prog::NextNthNext(0), Prog::Skip(2), Prog::StepBy(2), Prog::NextLast].iter().map(|p| PROGS.iter().position(|q| q == p).unwrap() as u8).collect();
-    let passes: Vec<(usize, Vec<u8>)> = tier.pick(vec![(4, all_progs.clone())], vec![(5, five), (4, all_progs.clone())]);
+    // (the depth-5 passes run one reader kind at a time: one visited set for all of them outgrows a single allocation)
+    let passes: Vec<(usize, Vec<u8>, Option<u8>)> = tier.pick(
+        vec![(4, all_progs.clone(), None)],
+        vec![(5, five.clone(), Some(0)), (5, five.clone(), Some(1)), (5, five.clone(), Some(2)), (5, five, Some(3)), (4, all_progs.clone(), None)],
+    );
     let mut ctxs = vec![];
     let (mut unique_states, mut states_generated) = (0u64, 0u64);
-    for (depth, progs) in passes {
+    for (depth, progs, only_kind) in passes {
+        let inits: Vec<Hist> = inits.iter().filter(|h| only_kind.map(|k| h[0] == k).unwrap_or(true)).cloned().collect();
         let f2 = fxs.clone();
         let ty2 = types.clone();
         let res = hist::explore(
